@@ -327,6 +327,21 @@ FollowOff(L, size, c, fuel) ==
   LET p == OffPage(L, size, c)
   IN IF fuel = 0 \/ ~IsCursor(p.next) THEN <<p.items>> ELSE <<p.items>> \o FollowOff(L, size, p.next, fuel - 1)
 
+\* ---- a request that follows a cursor may carry ANOTHER page size: the cursor keeps its position (pid / offset), the size
+\* of the request applies to the page it serves and to the cursors that page hands out (next offset = offset + the size
+\* just applied, previous offset = max(0, offset - that size)).  ColWalk / OffWalk: the page RECORDS visited from cursor c
+\* following dir ("next" | "prev") with page size `size`.
+RECURSIVE ColWalk(_, _, _, _, _, _)
+ColWalk(keys, order, size, c, dir, fuel) ==
+  LET p == ColPage(keys, order, size, c)
+      nx == IF dir = "next" THEN p.next ELSE p.prev
+  IN IF fuel = 0 \/ ~IsCursor(nx) THEN <<p>> ELSE <<p>> \o ColWalk(keys, order, size, nx, dir, fuel - 1)
+RECURSIVE OffWalk(_, _, _, _, _)
+OffWalk(L, size, c, dir, fuel) ==
+  LET p == OffPage(L, size, c)
+      nx == IF dir = "next" THEN p.next ELSE p.prev
+  IN IF fuel = 0 \/ ~IsCursor(nx) THEN <<p>> ELSE <<p>> \o OffWalk(L, size, nx, dir, fuel - 1)
+
 SortedKeys(keys, order) == SortSeq(SetToSeq(keys), LAMBDA x, y : Less(order, x, y))
 
 \* Pages(list, pageSize, order): what following next from the first page must enumerate
